@@ -103,6 +103,7 @@ impl Item {
 /// Everything the scheduler can do to one real iterator. "in place" operations go through
 /// `by_ref()` and advance the handle; "by value" operations (`v_*`) consume a clone, because
 /// `last`, `count`, `fold`, ... take `self` and an override of them is only reachable that way.
+#[allow(unused_variables)]
 pub trait IterHandle {
     fn next(&mut self) -> Item;
     fn next_back(&mut self) -> Item;
@@ -114,45 +115,107 @@ pub trait IterHandle {
     /// `Clone::clone_from(self, other)`; `other` must wrap the same iterator type
     fn clone_from_dyn(&mut self, other: &dyn IterHandle);
     fn as_any(&self) -> &dyn std::any::Any;
-    fn skip_next(&mut self, k: usize) -> Item;
-    fn step_by_take(&mut self, step: usize, take: usize) -> Vec<Item>;
-    fn rev_nth(&mut self, k: usize) -> Item;
-    fn rev_skip_next(&mut self, k: usize) -> Item;
-    fn drain_last(&mut self) -> Item;
-    fn drain_count(&mut self) -> usize;
+    fn skip_next(&mut self, k: usize) -> Item {
+        unreachable!("operation outside the core alphabet on a core-only handle")
+    }
+    fn step_by_take(&mut self, step: usize, take: usize) -> Vec<Item> {
+        unreachable!("operation outside the core alphabet on a core-only handle")
+    }
+    fn rev_nth(&mut self, k: usize) -> Item {
+        unreachable!("operation outside the core alphabet on a core-only handle")
+    }
+    fn rev_skip_next(&mut self, k: usize) -> Item {
+        unreachable!("operation outside the core alphabet on a core-only handle")
+    }
+    fn drain_last(&mut self) -> Item {
+        unreachable!("operation outside the core alphabet on a core-only handle")
+    }
+    fn drain_count(&mut self) -> usize {
+        unreachable!("operation outside the core alphabet on a core-only handle")
+    }
     // adapters whose back end depends on an exact len()
-    fn take_back(&mut self, k: usize) -> Item;
-    fn skip_back(&mut self, k: usize) -> Item;
-    fn enumerate_back(&mut self) -> Option<(usize, Item)>;
-    fn step_by_back(&mut self, step: usize) -> Item;
+    fn take_back(&mut self, k: usize) -> Item {
+        unreachable!("operation outside the core alphabet on a core-only handle")
+    }
+    fn skip_back(&mut self, k: usize) -> Item {
+        unreachable!("operation outside the core alphabet on a core-only handle")
+    }
+    fn enumerate_back(&mut self) -> Option<(usize, Item)> {
+        unreachable!("operation outside the core alphabet on a core-only handle")
+    }
+    fn step_by_back(&mut self, step: usize) -> Item {
+        unreachable!("operation outside the core alphabet on a core-only handle")
+    }
     // by value, on a clone
-    fn v_last(&self) -> Item;
-    fn v_count(&self) -> usize;
-    fn v_fold(&self) -> Vec<Item>;
-    fn v_rfold(&self) -> Vec<Item>;
-    fn v_collect(&self) -> Vec<Item>;
-    fn v_rev_collect(&self) -> Vec<Item>;
-    fn v_position(&self, target: usize) -> Option<usize>;
-    fn v_rposition(&self, target: usize) -> Option<usize>;
-    fn v_find(&self, target: usize) -> Item;
-    fn v_rfind(&self, target: usize) -> Item;
+    fn v_last(&self) -> Item {
+        unreachable!("operation outside the core alphabet on a core-only handle")
+    }
+    fn v_count(&self) -> usize {
+        unreachable!("operation outside the core alphabet on a core-only handle")
+    }
+    fn v_fold(&self) -> Vec<Item> {
+        unreachable!("operation outside the core alphabet on a core-only handle")
+    }
+    fn v_rfold(&self) -> Vec<Item> {
+        unreachable!("operation outside the core alphabet on a core-only handle")
+    }
+    fn v_collect(&self) -> Vec<Item> {
+        unreachable!("operation outside the core alphabet on a core-only handle")
+    }
+    fn v_rev_collect(&self) -> Vec<Item> {
+        unreachable!("operation outside the core alphabet on a core-only handle")
+    }
+    fn v_position(&self, target: usize) -> Option<usize> {
+        unreachable!("operation outside the core alphabet on a core-only handle")
+    }
+    fn v_rposition(&self, target: usize) -> Option<usize> {
+        unreachable!("operation outside the core alphabet on a core-only handle")
+    }
+    fn v_find(&self, target: usize) -> Item {
+        unreachable!("operation outside the core alphabet on a core-only handle")
+    }
+    fn v_rfind(&self, target: usize) -> Item {
+        unreachable!("operation outside the core alphabet on a core-only handle")
+    }
     // in place (`&mut self` methods that stop early and leave the rest for later calls)
-    fn any_is(&mut self, target: usize) -> bool;
-    fn all_not(&mut self, target: usize) -> bool;
-    fn find_ip(&mut self, target: usize) -> Item;
-    fn rfind_ip(&mut self, target: usize) -> Item;
-    fn position_ip(&mut self, target: usize) -> Option<usize>;
-    fn rposition_ip(&mut self, target: usize) -> Option<usize>;
+    fn any_is(&mut self, target: usize) -> bool {
+        unreachable!("operation outside the core alphabet on a core-only handle")
+    }
+    fn all_not(&mut self, target: usize) -> bool {
+        unreachable!("operation outside the core alphabet on a core-only handle")
+    }
+    fn find_ip(&mut self, target: usize) -> Item {
+        unreachable!("operation outside the core alphabet on a core-only handle")
+    }
+    fn rfind_ip(&mut self, target: usize) -> Item {
+        unreachable!("operation outside the core alphabet on a core-only handle")
+    }
+    fn position_ip(&mut self, target: usize) -> Option<usize> {
+        unreachable!("operation outside the core alphabet on a core-only handle")
+    }
+    fn rposition_ip(&mut self, target: usize) -> Option<usize> {
+        unreachable!("operation outside the core alphabet on a core-only handle")
+    }
     /// clone.cycle().take(t)
-    fn v_cycle_take(&self, t: usize) -> Vec<Item>;
+    fn v_cycle_take(&self, t: usize) -> Vec<Item> {
+        unreachable!("operation outside the core alphabet on a core-only handle")
+    }
     /// clone.zip(clone.rev()) as (front item, back item) pairs, flattened
-    fn v_zip_rev(&self) -> Vec<Item>;
+    fn v_zip_rev(&self) -> Vec<Item> {
+        unreachable!("operation outside the core alphabet on a core-only handle")
+    }
     /// clone.chain(clone).skip(k).collect()
-    fn v_chain_skip(&self, k: usize) -> Vec<Item>;
+    fn v_chain_skip(&self, k: usize) -> Vec<Item> {
+        unreachable!("operation outside the core alphabet on a core-only handle")
+    }
     /// peekable: peek, next, peek, next_if(..), ... rendered as the items seen
-    fn v_peekable(&self) -> Vec<Item>;
+    fn v_peekable(&self) -> Vec<Item> {
+        unreachable!("operation outside the core alphabet on a core-only handle")
+    }
     /// clone.eq(clone) and clone.ne(clone.skip(1)) through Iterator::eq on item identity
-    fn v_iter_eq(&self) -> (bool, bool);
+    fn v_iter_eq(&self) -> (bool, bool) {
+        unreachable!("operation outside the core alphabet on a core-only handle")
+    }
     /// remaining items front to back, pulled one by one from a clone (bounded)
     fn rest(&self) -> Vec<Item>;
     /// remaining items back to front, pulled one by one from a clone (bounded)
@@ -451,6 +514,111 @@ where
         format!("{:?}", self.it)
     }
 }
+
+/// A handle that offers only the operations the statement names (next, next_back, nth, nth_back, len, size_hint, clone,
+/// clone_from, Debug): used for the enums around 2^16 variants, where every further adapter instantiation inlines a
+/// 65 536-arm match once more and costs minutes of compile time.
+pub struct HC<E: IntoEnumIterator + 'static>(H<E>);
+
+impl<E> IterHandle for HC<E>
+where
+    E: IntoEnumIterator + PartialEq + Debug + 'static,
+    E::Iterator: Debug,
+{
+    fn next(&mut self) -> Item {
+        let x = self.0.it.next();
+        self.0.id(x)
+    }
+    fn next_back(&mut self) -> Item {
+        let x = self.0.it.next_back();
+        self.0.id(x)
+    }
+    fn nth(&mut self, n: usize) -> Item {
+        let x = self.0.it.nth(n);
+        self.0.id(x)
+    }
+    fn nth_back(&mut self, n: usize) -> Item {
+        let x = self.0.it.nth_back(n);
+        self.0.id(x)
+    }
+    fn len(&self) -> usize {
+        self.0.it.len()
+    }
+    fn size_hint(&self) -> (usize, Option<usize>) {
+        self.0.it.size_hint()
+    }
+    fn dup(&self) -> Box<dyn IterHandle> {
+        Box::new(HC(H::<E> { it: self.0.it.clone(), exp: self.0.exp.clone(), near: std::cell::Cell::new(self.0.near.get()), hints: std::cell::Cell::new(self.0.hints.get()) }))
+    }
+    fn clone_from_dyn(&mut self, other: &dyn IterHandle) {
+        if let Some(o) = other.as_any().downcast_ref::<HC<E>>() {
+            self.0.it.clone_from(&o.0.it);
+        }
+    }
+    fn as_any(&self) -> &dyn std::any::Any {
+        self
+    }
+    fn rest(&self) -> Vec<Item> {
+        let mut c = self.0.it.clone();
+        let mut out = Vec::new();
+        for _ in 0..(self.0.exp.len() + 2) {
+            match c.next() {
+                Some(e) => out.push(self.0.id(Some(e))),
+                None => break,
+            }
+        }
+        out
+    }
+    fn rest_rev(&self) -> Vec<Item> {
+        let mut c = self.0.it.clone();
+        let mut out = Vec::new();
+        for _ in 0..(self.0.exp.len() + 2) {
+            match c.next_back() {
+                Some(e) => out.push(self.0.id(Some(e))),
+                None => break,
+            }
+        }
+        out
+    }
+    fn hint(&self, front: usize, back: usize) {
+        self.0.hints.set((front, back));
+    }
+    fn probe(&self, j: usize) -> (Item, Item) {
+        let a = self.0.it.clone().nth(j);
+        let b = self.0.it.clone().nth_back(j);
+        (self.0.id(a), self.0.id(b))
+    }
+    fn probe_past_end(&self, len: usize) -> [Item; 4] {
+        let a = self.0.it.clone().nth(len);
+        let b = self.0.it.clone().nth_back(len);
+        let mut c = self.0.it.clone();
+        if len > 0 {
+            c.nth(len - 1);
+        }
+        let c = c.next();
+        let mut d = self.0.it.clone();
+        if len > 0 {
+            d.nth_back(len - 1);
+        }
+        let d = d.next_back();
+        [self.0.id(a), self.0.id(b), self.0.id(c), self.0.id(d)]
+    }
+    fn debug_fmt(&self) -> String {
+        format!("{:?}", self.0.it)
+    }
+}
+
+/// see `HC`
+pub fn mk_core<E>(expected: Vec<E>) -> Box<dyn IterHandle>
+where
+    E: IntoEnumIterator + PartialEq + Debug + 'static,
+    E::Iterator: Debug,
+{
+    Box::new(HC(H::<E> { it: E::iter(), exp: Rc::new(expected), near: std::cell::Cell::new(0), hints: std::cell::Cell::new((0, 0)) }))
+}
+
+/// set by `main_core`: the scheduler then draws from the core alphabet only
+pub static CORE_ONLY: std::sync::atomic::AtomicBool = std::sync::atomic::AtomicBool::new(false);
 
 pub fn mk<E>(expected: Vec<E>) -> Box<dyn IterHandle>
 where
@@ -1420,6 +1588,9 @@ pub fn gen_ops(rng: &mut Rng, n: usize) -> (Vec<Op>, bool) {
     let allow_back = rng.chance(85, 100);
     let allow_by_value = rng.chance(50, 100);
     let allow_len_adapters = rng.chance(50, 100);
+    // (the draws above are made in every mode, so that the PRNG stream does not depend on it)
+    let core = CORE_ONLY.load(std::sync::atomic::Ordering::Relaxed);
+    let (allow_adapters, allow_by_value, allow_len_adapters) = (allow_adapters && !core, allow_by_value && !core, allow_len_adapters && !core);
     let keep_going_after_exhaustion = rng.chance(40, 100);
     let steps = rng.range(4, 40) as usize;
     let mut ops = Vec::with_capacity(steps + 2);
@@ -1579,6 +1750,12 @@ fn minimise(case: &Case, ops: Vec<Op>, sig: &str) -> Vec<Op> {
         }
     }
     ddmin(ops, |c| same(c))
+}
+
+/// `main` for the binary over the enums around 2^16 variants: core alphabet only (see `HC`)
+pub fn main_core(cases: &'static [Case]) -> ! {
+    CORE_ONLY.store(true, std::sync::atomic::Ordering::Relaxed);
+    main(cases)
 }
 
 pub fn main(cases: &'static [Case]) -> ! {
